@@ -79,13 +79,30 @@ class MemPerDocWriter(base.PerDocWriterWithColumns):
         self.is_closed = False
         self._colwriters = {}
         self._doccount = 0
+        # Number of documents written to the segment by earlier writers
+        self._docbase = segment.doc_count_all()
 
     def _has_column(self, fieldname):
         return fieldname in self._colwriters
 
     def _create_column(self, fieldname, column):
-        colfile = self._storage.create_file("%s.c" % fieldname)
-        self._colwriters[fieldname] = (colfile, column.writer(colfile))
+        filename = "%s.c" % fieldname
+        previous = None
+        if self._storage.file_exists(filename):
+            # An earlier writer on this in-memory segment already wrote this
+            # column. Creating the file again replaces it, so carry the
+            # existing values over into the new column
+            length = self._storage.file_length(filename)
+            oldfile = self._storage.open_file(filename)
+            previous = list(column.reader(oldfile, 0, length, self._docbase))
+            oldfile.close()
+
+        colfile = self._storage.create_file(filename)
+        colwriter = column.writer(colfile)
+        if previous:
+            for docnum, value in enumerate(previous):
+                colwriter.add(docnum, value)
+        self._colwriters[fieldname] = (colfile, colwriter)
 
     def _get_column(self, fieldname):
         return self._colwriters[fieldname][1]
